@@ -97,6 +97,7 @@ func engineCABI(rc *RunCtx) *Outcome {
 		for i := range c.stateRows {
 			c.stateRows[i] = initialStateRow(c.Model, c.desc, c.cols[i%c.P], c.MaxDim)
 		}
+		c.padRows()
 		// InitialiseStates(nCells) sizes from cell 0: all cells share the width class already
 	}
 	c.refOut, c.refFin = nil, nil
@@ -220,7 +221,11 @@ func engineCABI(rc *RunCtx) *Outcome {
 		if hasStates {
 			for j := 0; j < width; j++ {
 				o.Checks++
-				if g, e := gst[i*width+j], c.refFin[i][j]; !bitsEq(g, e) {
+				e := 0.0
+				if j < len(c.refFin[i]) {
+					e = c.refFin[i][j]
+				}
+				if g := gst[i*width+j]; !bitsEq(g, e) {
 					o.fail("c-abi-state-differs", "cabi/state/"+c.Model, "%s through the C ABI: cell %d final state[%d] = %v, the Go API gives %v (init_states=%v)", c.Model, i, j, g, e, initStates)
 					return o
 				}
@@ -266,6 +271,7 @@ func drawHugeCellCase(w *simrt.Tape) *cellCase {
 	for i := 0; i < c.N; i++ {
 		c.stateRows = append(c.stateRows, rows[i%c.P])
 	}
+	c.padRows()
 	return c
 }
 
